@@ -268,6 +268,16 @@ func (fr *frame) call2(b *ssa.BasicBlock, site ssa.Instruction, c *ssa.CallCommo
 	}
 	if target != nil {
 		con := x.eng.contracts[name]
+		if con == nil && name == "" && len(bindings) == 0 {
+			// a function value known to be a declared function (passed as an argument and called by the inlined
+			// callee): its own contract applies
+			if tc, ok := x.eng.contracts[target.String()]; ok {
+				if !tc.Inline {
+					return fr.applyContract(b, site, tc, target.String(), args, atypes, sig, rt, reach, h)
+				}
+				con = tc
+			}
+		}
 		inl := con != nil && con.Inline
 		if target.Parent() != nil && target.Blocks != nil { // anonymous function defined in an enclosing function
 			inl = true
